@@ -76,8 +76,12 @@ def exclusion_for(rng, tree, base_placeholder="@BASE@"):
     pats = []
     for _ in range(rng.randint(1, 2)):
         nme = rng.choice(names)
-        shape = rng.randrange(8)
-        if shape == 5:
+        shape = rng.randrange(9)
+        if shape == 8:
+            # the name in another letter case: patterns are matched character by character, so this excludes nothing
+            # (unless the tree happens to contain that spelling too)
+            pats.append("*" + (nme.upper() if nme != nme.upper() else nme.lower()))
+        elif shape == 5:
             pats.append("*/" + nme + "/")              # ends in a separator: no path string ends like that - nothing is excluded
         elif shape == 6:
             pats.append("*/" + nme + "/*")             # everything BELOW the directory, not the directory itself
@@ -228,6 +232,73 @@ def judge_scans(ctx, stream, cases):
                                    "module_path": mp, "patterns": case["pats"], "impl": filtered, "model": m, "line": line[:3000]})
 
 
+def _link_case(case):
+    """a file of the tree is a symbolic link (to a store outside the tree); exclusion patterns are matched against the path of
+    the file IN THE SCANNED TREE, as for directories: the link's own name decides, the target's name is irrelevant.  Also run
+    with root_path / module_path given relative to the working directory and patterns spelled with that relative path."""
+    import os
+    import shutil
+
+    from ..impl import err_kind, get_evaluable_architecture, graph_snapshot
+
+    tree, link, pats, relative = case
+    with sc.write_project(tree) as proj:
+        if link:
+            os.makedirs(proj.path("_store"))
+            shutil.move(proj.path(link), proj.path("_store/f0_target.py"))
+            os.symlink(proj.path("_store/f0_target.py"), proj.path(link))
+        base = "proj" if relative else proj.path("proj")
+        ps = tuple(p.replace("@BASE@", base) for p in pats)
+        cwd = os.getcwd()
+        try:
+            if relative:
+                os.chdir(proj.path())
+            try:
+                ev = get_evaluable_architecture(base, base, exclusions=ps)
+                got = sc.snapshot_str(*graph_snapshot(ev))
+            except Exception as e:  # noqa: BLE001
+                got = "ERR:" + err_kind(e)
+        finally:
+            os.chdir(cwd)
+        line = sc.scan_line("scan", base, tree, "proj", "proj", ("G", ps))
+    return got, line, ps
+
+
+def link_and_relative_stream(ctx, stream, n):
+    rng = ctx.rng("links-exclusions")
+    cases = []
+    while len(cases) < n:
+        tree = sc.gen_tree(rng, comps=META_COMPS, extra_files=False)
+        sc.fill_sources(rng, tree, externals=False)
+        files = sorted(p for p in tree if p.endswith(".py") and not p.endswith("__init__.py"))
+        if not files:
+            continue
+        relative = rng.random() < 0.5
+        link = rng.choice(files) if rng.random() < 0.6 else None
+        f = link or rng.choice(files)
+        name = f.split("/")[-1]
+        pats = [rng.choice(["*" + name, "*/" + name, "@BASE@/" + f.split("/", 1)[1], "*f0_target.py", "*_store*", "@BASE@*" + name])]
+        if rng.random() < 0.3:
+            d = rng.choice(sorted(p for p, v in tree.items() if v is None))
+            pats.append("@BASE@" + ("/" + d.split("/", 1)[1] if "/" in d else ""))
+        cases.append((tree, link, pats, relative))
+    res = pmap(_link_case, cases, ctx.jobs, chunk=10)
+    ans = run_driver([r[1] for r in res])
+    for (tree, link, pats, relative), (got, line, ps), a in zip(cases, res, ans):
+        stream.evaluations += 1
+        stream.count(("link " if link else "plain ") + ("relative-root" if relative else "absolute-root"))
+        m = parse_answer(a).get("M", "?")
+        stream.nontrivial.add(digest((sorted(tree), link, pats, relative)))
+        if got != m:
+            G, M = sc.parse_snapshot(got), sc.parse_snapshot(m)
+            what = ("modules under exclusion patterns differ from what the paths of the scanned tree demand (patterns are matched against the path of each file "
+                    "and directory as it lies in the tree): " + (f"unexpectedly present {sorted(G[0] - M[0])[:5]}, unexpectedly missing {sorted(M[0] - G[0])[:5]}" if G and M else f"{got[:100]} vs {m[:100]}"))
+            ctx.violations.append({"kind": "property-violation", "what": what, "files": dict(tree), "symbolic_link": link, "patterns": list(ps),
+                                   "relative_root": relative, "impl": got, "expected": m})
+            if len(ctx.violations) >= 3:
+                return
+
+
 def run(ctx: Ctx):
     run_witnesses(ctx)
     quick = ctx.quick()
@@ -237,6 +308,10 @@ def run(ctx: Ctx):
     s = Stream(ctx, "random trees x exclusion tuples from the tree's own names (glob and regex forms)")
     tree_stream(ctx, s, ctx.size(3000, 30000), ctx.rng("scans"))
     s.finish()
+    if not ctx.violations:
+        s = Stream(ctx, "exclusion patterns vs symbolically linked files and relative root paths (patterns on the link's name, on the target's name, spelled with the relative root)")
+        link_and_relative_stream(ctx, s, ctx.size(400, 6000))
+        s.finish()
     return RULE
 
 
